@@ -90,6 +90,20 @@ class C11(Prop):
         self._restart_kind = kind
         return openfail, start_in_recovery
 
+    @staticmethod
+    def _only_waits_inside_failing_start(log, fw):
+        """every wait that was answered nil with the source still open was answered before the failing Start returned"""
+        start_ret = next((i for i, e in enumerate(log) if i > fw and e["k"] == "ret" and e.get("a") == "start"), len(log))
+        src_open, early = False, []
+        for i, e in enumerate(log):
+            if e["k"] == "open" and e.get("a") == "src":
+                src_open = True
+            elif e["k"] == "td" and e.get("a") == "src":
+                src_open = False
+            elif e["k"] == "ret" and e.get("a") == "wait" and src_open:
+                early.append(i)
+        return bool(early) and all(fw < i < start_ret and log[i].get("b") == "nil" for i in early)
+
     def finding_key(self, case, code):
         eng = case["input"]["cfg"]["engine"]
         known = {e["key"] for e in core.known_findings(self.id)}
@@ -99,14 +113,24 @@ class C11(Prop):
         wedged = [e.get("a", "") for e in log if e["k"] == "wedge"]
         # a failing store write of UpdateStatus(StatusRunning): every consequence is one defect per engine and place
         fw = next((i for i, e in enumerate(log) if e["k"] == "inj" and e.get("a") == "st.Running"), None)
-        if fw is not None and code >> 2:
+        # (not when a user Start was admitted while Recovering in the same history: two Starts are then in flight at
+        # once, which is the open finding <engine>/start-admitted-while-recovering whatever else fails; the histories
+        # that decide the failed-write repairs - corpus/C11 and the two generator shapes - have no such Start)
+        if fw is not None and code >> 2 and not start_in_recovery:
             inflight = 0
             for e in log[:fw]:
                 if e.get("a") == "start" and e["k"] == "call":
                     inflight += 1
                 elif e.get("a") == "start" and e["k"] == "ret":
                     inflight -= 1
-            return "%s/failed-running-write/%s" % (eng, "at-start" if inflight > 0 else "at-restart")
+            key = "%s/failed-running-write/%s" % (eng, "at-start" if inflight > 0 else "at-restart")
+            # one specific, recorded consequence (default engine): the ONLY rule violated is "wait returned while the
+            # run is live", for a wait answered nil while the failing Start itself had not returned yet (the
+            # publication is rolled back before the Killed run is dead). Anything else - a run that is never wound
+            # down, a wrong final status, a refused restart - keeps the plain key and is reported.
+            if eng == "v1" and inflight > 0 and (code & ~3) == (1 << 3) and self._only_waits_inside_failing_start(log, fw):
+                key += "/wait-answered-during-wind-down"
+            return key
         lost_entry = bool(code & ((1 << 5) | (1 << 3)))
         for bit, name in RULES:
             if code & (1 << bit):
